@@ -30,4 +30,13 @@ def main(argv):
 
 
 if __name__ == '__main__':
-    sys.exit(main(sys.argv[1:]))
+    try:
+        rc = main(sys.argv[1:])
+    except SystemExit:
+        raise
+    except BaseException as e:   # a crash of the machinery is never a violation
+        import traceback
+        traceback.print_exc()
+        print(f'INCONCLUSIVE harness error: {e!r}')
+        rc = 2
+    sys.exit(rc)
